@@ -104,3 +104,124 @@ pub fn path_escapes(b: &[u8]) -> bool {
     }
     esc
 }
+
+// ---- reference UTF-8 validator (C15, C17) ---------------------------------------------------------------------
+// core::str::from_utf8 (run_utf8_validation: word-at-a-time fast path, three nested loops) does not finish once the
+// buffer length is symbolic. It is replaced (#[kani::stub]) by a byte-wise reference validator with the SAME contract
+// (valid_up_to, error_len per the "maximal subpart" rule). Two harness families justify the stub in every property that
+// uses it: *_utf8_ref_layout (the Utf8Error value built by transmute reports the numbers put in) and
+// *_utf8_ref_equiv_len{2,3,4} (reference == std on EVERY byte string of that length, i.e. every complete and truncated
+// form of every sequence).
+#[allow(dead_code)]
+#[repr(C)]
+struct Utf8ErrorParts {
+    valid_up_to: usize,
+    error_len: Option<u8>,
+}
+#[allow(dead_code)]
+fn mk_utf8_error(valid_up_to: usize, error_len: Option<u8>) -> core::str::Utf8Error {
+    unsafe { core::mem::transmute::<Utf8ErrorParts, core::str::Utf8Error>(Utf8ErrorParts { valid_up_to, error_len }) }
+}
+#[allow(dead_code)]
+fn is_cont(b: u8) -> bool {
+    b >= 0x80 && b <= 0xBF
+}
+// returns Ok(()) or Err((valid_up_to, error_len))
+#[allow(dead_code)]
+fn ref_validate(v: &[u8]) -> Result<(), (usize, Option<u8>)> {
+    let n = v.len();
+    let mut i = 0usize;
+    while i < n {
+        let b0 = v[i];
+        if b0 < 0x80 {
+            i += 1;
+            continue;
+        }
+        let (need, lo, hi): (usize, u8, u8) = if b0 >= 0xC2 && b0 <= 0xDF {
+            (1, 0x80, 0xBF)
+        } else if b0 == 0xE0 {
+            (2, 0xA0, 0xBF)
+        } else if (b0 >= 0xE1 && b0 <= 0xEC) || b0 == 0xEE || b0 == 0xEF {
+            (2, 0x80, 0xBF)
+        } else if b0 == 0xED {
+            (2, 0x80, 0x9F)
+        } else if b0 == 0xF0 {
+            (3, 0x90, 0xBF)
+        } else if b0 >= 0xF1 && b0 <= 0xF3 {
+            (3, 0x80, 0xBF)
+        } else if b0 == 0xF4 {
+            (3, 0x80, 0x8F)
+        } else {
+            return Err((i, Some(1)));
+        };
+        // second byte
+        if i + 1 >= n {
+            return Err((i, None));
+        }
+        let b1 = v[i + 1];
+        if b1 < lo || b1 > hi {
+            return Err((i, Some(1)));
+        }
+        if need >= 2 {
+            if i + 2 >= n {
+                return Err((i, None));
+            }
+            if !is_cont(v[i + 2]) {
+                return Err((i, Some(2)));
+            }
+        }
+        if need >= 3 {
+            if i + 3 >= n {
+                return Err((i, None));
+            }
+            if !is_cont(v[i + 3]) {
+                return Err((i, Some(3)));
+            }
+        }
+        i += need + 1;
+    }
+    Ok(())
+}
+#[allow(dead_code)]
+fn stub_from_utf8(v: &[u8]) -> Result<&str, core::str::Utf8Error> {
+    match ref_validate(v) {
+        Ok(()) => Ok(unsafe { core::str::from_utf8_unchecked(v) }),
+        Err((up_to, len)) => Err(mk_utf8_error(up_to, len)),
+    }
+}
+
+#[allow(dead_code)]
+fn utf8_ref_layout_body() {
+    let up_to: usize = kani::any();
+    let len: Option<u8> = if kani::any() { Some(kani::any()) } else { None };
+    let e = mk_utf8_error(up_to, len);
+    assert!(e.valid_up_to() == up_to, "Utf8Error layout assumption broken (valid_up_to)");
+    match (len, e.error_len()) {
+        (None, None) => {}
+        (Some(a), Some(b)) => assert!(a as usize == b, "Utf8Error layout assumption broken (error_len)"),
+        _ => assert!(false, "Utf8Error layout assumption broken (error_len presence)"),
+    }
+    kani::cover!(len.is_none(), "incomplete-sequence error");
+}
+#[allow(unused_macros)]
+macro_rules! utf8_ref_equiv {
+    ($name:ident, $n:expr) => {
+        #[kani::proof]
+        #[kani::unwind(8)]
+        fn $name() {
+            let bytes: [u8; $n] = kani::any();
+            let std_r = std::str::from_utf8(&bytes);
+            let ref_r = ref_validate(&bytes);
+            match (std_r, ref_r) {
+                (Ok(_), Ok(())) => {}
+                (Err(e), Err((up_to, len))) => {
+                    assert!(e.valid_up_to() == up_to, "reference validator disagrees with std on valid_up_to");
+                    assert!(e.error_len().map(|l| l as u8) == len, "reference validator disagrees with std on error_len");
+                }
+                _ => assert!(false, "reference validator disagrees with std on validity"),
+            }
+            kani::cover!(std_r.is_ok() && bytes[0] >= 0x80, "a multi-byte sequence is valid");
+            kani::cover!(std_r.is_err(), "invalid input");
+        }
+    };
+}
